@@ -1,10 +1,30 @@
 /-
-  Property C04 — property theorems only (helper lemmas live next to the model).
+  Property C04 — ConcurrentVector: references obtained from ensure / operator[] / snapshots keep
+  designating the same element however many threads grow the vector; two threads asking for the same
+  index get the same element; every element is constructed exactly once before anyone can see it and
+  destroyed exactly once when the vector dies; a snapshot stays usable for at least one cooling period
+  (64 s) after the growth that superseded it, even if gc() is called.
+
+  Model: Babylon/CVec/Model.lean (one step = one atomic operation on `_block_table` /
+  `RetireList::_head` or one clock read of the real code, plus the thread-local allocator /
+  constructor work that follows it).  `R c s` = "s is reachable": any number of threads, any
+  interleaving of ensure / reserve / for_each-fill-copy / snapshot / operator[] / gc calls, any
+  indices, any monotone clock history starting anywhere (16-bit stamp wrap included), destructor at
+  quiescence.  Helper lemmas: Babylon/CVec/Lemmas*.lean.  Only theorems here.
+
+  Residual (not covered by a theorem): node addresses of the retire list are never reused in the model
+  — an ABA on a reused address needs one retire / gc call stalled for 2^16 stamp units (48.5 days);
+  "64 s" is time on the clock the code reads (virtual in the correspondence runs); executions are
+  sequentially consistent interleavings (memory orders are tied by the skeleton obligations below, by
+  lock-step trace equality and by the happens-before monitor of the correspondence harness).
 -/
-import Babylon.CVec.Model
+import Babylon.CVec.Witness
 
 namespace Babylon.Properties.C04
 open Babylon.Core Babylon.CVec
+
+/-- reachable states of the vector with configuration `c` -/
+abbrev R (c : Cfg) (s : State) : Prop := Reachable Init (Step c) s
 
 /-! ### generated obligations: the model was written against these facts of the current source -/
 theorem gen_tsShift : Gen.CVec.tsShift = 6 := by decide
@@ -13,6 +33,9 @@ theorem gen_stampBits : Gen.CVec.stampBits = 16 := by decide
 theorem gen_headLayout : Gen.CVec.nodeShift = 48 ∧ Gen.CVec.makeHeadShift = 48 ∧ Gen.CVec.nodeMask = 2 ^ 48 - 1 := by decide
 theorem gen_indexBits : Gen.CVec.indexBits = 32 := by decide
 theorem gen_staticBits : Gen.CVec.staticBits1 = 0 ∧ Gen.CVec.staticBits4 = 2 ∧ Gen.CVec.staticBits16 = 4 := by decide
+/-- the retry loop of `RetireList::retire` takes a fresh stamp for every CAS attempt (fix f6ba807;
+before it the full `retire_never_early` was false, see `retire_stale_timestamp_counterexample`) -/
+theorem gen_retireRereads : Gen.CVec.retireRereads = true := by decide
 theorem gen_skel_retire : Gen.CVec.skel_retire = Skel.retire Gen.CVec.retireRereads := by decide
 theorem gen_skel_gc : Gen.CVec.skel_gc = Skel.gc := by decide
 theorem gen_skel_unsafe_gc : Gen.CVec.skel_unsafe_gc = Skel.unsafe_gc := by decide
@@ -23,5 +46,308 @@ theorem gen_skel_snapshot : Gen.CVec.skel_snapshot = Skel.snapshot := by decide
 theorem gen_skel_dtor : Gen.CVec.skel_dtor = Skel.dtor := by decide
 theorem gen_skel_create_block : Gen.CVec.skel_create_block = Skel.create_block := by decide
 theorem gen_skel_delete_block : Gen.CVec.skel_delete_block = Skel.delete_block := by decide
+
+/-! ### index arithmetic (static and dynamic block sizes are both `2 ^ bits`) -/
+
+/-- `block_index` / `block_offset` split an index into quotient and remainder by the block size -/
+theorem cvec_index_split (c : Cfg) (i : Nat) (h : i / c.bs < 2 ^ 32) :
+    blockIndex c i = i / c.bs ∧ blockOffset c i = i % c.bs ∧ blockOffset c i < c.bs ∧
+      blockIndex c i * c.bs + blockOffset c i = i :=
+  ⟨blockIndex_eq_div c i h, blockOffset_eq_mod c i, blockOffset_lt c i, index_split c i h⟩
+
+/-- one element per index: different indices never share (block index, offset) -/
+theorem cvec_index_injective (c : Cfg) (i j : Nat) (hi : i / c.bs < 2 ^ 32) (hj : j / c.bs < 2 ^ 32)
+    (hb : blockIndex c i = blockIndex c j) (ho : blockOffset c i = blockOffset c j) : i = j :=
+  index_inj c i j hi hj hb ho
+
+/-- `ensure(i)` / `reserve(n)` ask for exactly enough blocks -/
+theorem cvec_growth_covers (c : Cfg) (i n : Nat) (hi : i / c.bs < 2 ^ 32) (hn : (n + c.mask) / c.bs < 2 ^ 32) :
+    (i < needEnsure c i * c.bs ∧ (needEnsure c i - 1) * c.bs ≤ i) ∧
+    (n ≤ needReserve c n * c.bs ∧ needReserve c n * c.bs < n + c.bs) :=
+  ⟨needEnsure_covers c i hi, needReserve_covers c n hn⟩
+
+/-- `set_block_size`: the block size is the least power of two `≥ hint` -/
+theorem cvec_block_size_rounds_up (hint : Nat) (h : hint ≤ 2 ^ 31) :
+    hint ≤ 2 ^ setBits hint ∧ (setBits hint = 0 ∨ 2 ^ (setBits hint - 1) < hint) := setBits_spec hint h
+
+/-- `for_each(b, e)` (also `fill_n` / `copy_n`, which go through it): the callback ranges are non-empty,
+each inside one block, and together exactly the elements `[b, e)` in order — also when the range
+straddles blocks or ends exactly on a block boundary -/
+theorem cvec_for_each_covers (c : Cfg) (bl : List Nat) (b e : Nat) (hbe : b ≤ e) (he : e / c.bs < 2 ^ 32) :
+    expandSegs (forEachSegs c bl b e) = rangeElems c bl b e ∧
+    ∀ s ∈ forEachSegs c bl b e, 0 < s.2.2 ∧ s.2.1 + s.2.2 ≤ c.bs := forEachSegs_spec c bl b e hbe he
+
+/-! ### stable addresses -/
+
+/-- every table ever installed in `_block_table` is a prefix of the current one -/
+theorem cvec_prefix_chain {c : Cfg} {s : State} (h : R c s) (T : Nat) (hT : s.pub T = true) :
+    s.tbl T <+: s.tbl s.cur := (Inv.of_reachable h).a.pre T hT
+
+/-- index `i` designates the same (block, offset) through every table / snapshot that covers it -/
+theorem cvec_same_element {c : Cfg} {s : State} (h : R c s) (T₁ T₂ i : Nat) (a₁ a₂ : Nat × Nat)
+    (h₁ : s.pub T₁ = true) (h₂ : s.pub T₂ = true)
+    (e₁ : elemAt c (s.tbl T₁) i = some a₁) (e₂ : elemAt c (s.tbl T₂) i = some a₂) : a₁ = a₂ := by
+  have p₁ := elemAt_prefix (cvec_prefix_chain h T₁ h₁) e₁
+  have p₂ := elemAt_prefix (cvec_prefix_chain h T₂ h₂) e₂
+  rw [p₁] at p₂; exact Option.some.inj p₂
+
+/-- what a thread holds is a published table: its snapshot, and the table behind an element returned
+by `ensure` / `operator[]` -/
+theorem cvec_snapshot_published {c : Cfg} {s : State} (h : R c s) (t T : Nat) (hs : s.snap t = some T) :
+    s.pub T = true := (Inv.of_reachable h).sn.snapPub t T hs
+
+/-- two threads asking for the same index get the same element, and a snapshot (old or new) covering
+that index agrees with them -/
+theorem cvec_threads_agree {c : Cfg} {s : State} (h : R c s) (t u i b o b' o' : Nat)
+    (ht : s.result t = .elem i b o) (hu : s.result u = .elem i b' o') : (b, o) = (b', o') := by
+  have inv := Inv.of_reachable h
+  have e₁ := inv.sn.resCur t i b o ht
+  have e₂ := inv.sn.resCur u i b' o' hu
+  rw [e₁] at e₂; exact Option.some.inj e₂
+
+theorem cvec_snapshot_agrees {c : Cfg} {s : State} (h : R c s) (t u T i b o : Nat) (a : Nat × Nat)
+    (hs : s.snap t = some T) (he : elemAt c (s.tbl T) i = some a) (hu : s.result u = .elem i b o) : a = (b, o) := by
+  have inv := Inv.of_reachable h
+  have e₁ := elemAt_prefix (inv.a.pre T (inv.sn.snapPub t T hs)) he
+  have e₂ := inv.sn.resCur u i b o hu
+  rw [e₁] at e₂; exact Option.some.inj e₂
+
+/-- different indices are different elements: blocks of a table are pairwise distinct -/
+theorem cvec_one_element_per_index {c : Cfg} {s : State} (h : R c s) (T i j : Nat) (a : Nat × Nat)
+    (hT : s.pub T = true) (hi : i / c.bs < 2 ^ 32) (hj : j / c.bs < 2 ^ 32)
+    (ei : elemAt c (s.tbl T) i = some a) (ej : elemAt c (s.tbl T) j = some a) : i = j := by
+  have inv := Inv.of_reachable h
+  have pi := elemAt_prefix (inv.a.pre T hT) ei
+  have pj := elemAt_prefix (inv.a.pre T hT) ej
+  simp only [elemAt, Option.map_eq_some_iff] at pi pj
+  obtain ⟨b, hb, rfl⟩ := pi
+  obtain ⟨b', hb', hab⟩ := pj
+  simp only [Prod.mk.injEq] at hab
+  obtain ⟨rfl, ho⟩ := hab
+  have hidx : blockIndex c i = blockIndex c j := by
+    have hnd := inv.b.curNodup
+    obtain ⟨h1, e1⟩ := List.getElem?_eq_some_iff.mp hb
+    obtain ⟨h2, e2⟩ := List.getElem?_eq_some_iff.mp hb'
+    exact (List.Nodup.getElem_inj_iff hnd).mp (e1.trans e2.symm)
+  exact index_inj c i j hi hj hidx ho.symm
+
+/-! ### built once, destroyed once -/
+
+/-- a block reachable through any published table has had its elements constructed exactly once, none
+destroyed, and is not freed — as long as the vector lives -/
+theorem cvec_construct_once {c : Cfg} {s : State} (h : R c s) (T b : Nat) (hlive : s.destroyed = false)
+    (hT : s.pub T = true) (hb : b ∈ s.tbl T) : s.ctorN b = 1 ∧ s.dtorN b = 0 ∧ s.freeN b = 0 := by
+  have inv := Inv.of_reachable h
+  have hcur : b ∈ s.tbl s.cur := (inv.a.pre T hT).subset hb
+  obtain ⟨h1, h2⟩ := inv.b.liveCur hlive b hcur
+  have := (inv.b.global b).2.2
+  exact ⟨h1, h2, by omega⟩
+
+/-- the blocks a thread is about to publish with its CAS are fully constructed (exactly once) and
+still private: in no published table -/
+theorem cvec_constructed_before_publication {c : Cfg} {s : State} (h : R c s) (t nt old need : Nat)
+    (made : List Nat) (k : Kont) (hpc : s.pc t = .casT nt old need made k) (b : Nat) (hb : b ∈ made) :
+    s.ctorN b = 1 ∧ s.dtorN b = 0 ∧ s.freeN b = 0 ∧ ∀ T, s.pub T = true → b ∉ s.tbl T := by
+  have inv := Inv.of_reachable h
+  have hspec : (s.pc t).spec = some (nt, made) := by rw [hpc]; rfl
+  obtain ⟨h1, h2⟩ := inv.b.liveMade t nt made hspec b hb
+  have := (inv.b.global b).2.2
+  refine ⟨h1, h2, by omega, fun T hT hm => ?_⟩
+  exact inv.b.madeNotCur t nt made hspec b hb ((inv.a.pre T hT).subset hm)
+
+/-- the loser of the table CAS destroys and frees exactly the blocks it created, each once; they were
+never published; nothing else is destroyed or freed by that step -/
+theorem cvec_loser_deletes_own_blocks {c : Cfg} {s s' : State} (h : R c s) (t nt old need : Nat)
+    (made : List Nat) (k : Kont) (inp : Inp) (ls : List Act) (hpc : s.pc t = .casT nt old need made k)
+    (hlose : s.cur ≠ old) (hst : stepThread c s t inp = some (s', ls)) :
+    (∀ b ∈ made, s'.ctorN b = 1 ∧ s'.dtorN b = 1 ∧ s'.freeN b = 1 ∧ ∀ T, s'.pub T = true → b ∉ s'.tbl T) ∧
+    (∀ b, b ∉ made → s'.dtorN b = s.dtorN b ∧ s'.freeN b = s.freeN b) := by
+  have inv := Inv.of_reachable h
+  have hspec : (s.pc t).spec = some (nt, made) := by rw [hpc]; rfl
+  have hcnt := count_nodup (inv.b.madeNodup t nt made hspec)
+  have hmade : ∀ b ∈ made, s.ctorN b = 1 ∧ s.dtorN b = 0 ∧ s.freeN b = 0 ∧ ∀ T, s.pub T = true → b ∉ s.tbl T :=
+    fun b hb => cvec_constructed_before_publication h t nt old need made k hpc b hb
+  have hts := stepThread_TStep hst
+  cases hts
+  case casWin _ _ _ _ _ hpc' hc => rw [hpc] at hpc'; cases hpc'; exact absurd hc hlose
+  case casLoseDone nt' old' need' made' k' hpc' hc hl =>
+    rw [hpc] at hpc'; cases hpc'
+    refine ⟨fun b hb => ?_, fun b hb => ?_⟩
+    · obtain ⟨h1, h2, h3, h4⟩ := hmade b hb
+      simp only [casLoseDone, finish, freedTables, deleted, hcnt, hb, if_true]
+      exact ⟨h1, by omega, by omega, h4⟩
+    · simp only [casLoseDone, finish, freedTables, deleted, hcnt, hb, if_false, Nat.add_zero, and_self]
+  case casLoseRetry nt' old' need' made' k' hpc' hc hl =>
+    rw [hpc] at hpc'; cases hpc'
+    have hfreshNot : ∀ b ∈ made, b ∉ madeIds (deleted s made) (need - (s.tbl s.cur).length) := by
+      intro b hb hm
+      have h1 := inv.b.madeLe t nt made hspec b hb
+      have h2 := ((mem_madeIds _ _ b).mp hm).1
+      simp only [deleted] at h2; omega
+    refine ⟨fun b hb => ?_, fun b hb => ?_⟩
+    · obtain ⟨h1, h2, h3, h4⟩ := hmade b hb
+      simp only [casLoseRetry, created, deleted, hcnt, hb, if_true]
+      have hn := hfreshNot b hb
+      simp only [deleted] at hn
+      simp only [hn, if_false]
+      exact ⟨h1, by omega, by omega, h4⟩
+    · simp only [casLoseRetry, created, deleted, hcnt, hb, if_false, Nat.add_zero, and_self]
+  all_goals (rename_i hpc'; rw [hpc] at hpc'; cases hpc')
+
+/-- at no time has an element been constructed twice, destroyed twice or without having been
+constructed, or its block freed otherwise than right after its elements' destruction -/
+theorem cvec_never_twice {c : Cfg} {s : State} (h : R c s) (a : Nat) :
+    s.ctorN a ≤ 1 ∧ s.dtorN a ≤ s.ctorN a ∧ s.freeN a = s.dtorN a := (Inv.of_reachable h).b.global a
+
+/-- when the vector has been destroyed every block that was ever constructed — published or not — has
+been destroyed exactly once and freed exactly once -/
+theorem cvec_destroyed_once {c : Cfg} {s : State} (h : R c s) (hd : s.destroyed = true) (a : Nat) :
+    s.ctorN a ≤ 1 ∧ s.dtorN a = s.ctorN a ∧ s.freeN a = s.ctorN a := by
+  have inv := Inv.of_reachable h
+  have hg := inv.b.global a
+  have hall := inv.b.doneAll hd a
+  omega
+
+/-! ### cooling period -/
+
+/-- arithmetic core: the code compares stamps truncated to 16 bits; if the head's stamp was taken no
+later than the current one, a positive truncated test `uint16_t(c - h) > 1` means the untruncated
+stamps are at least two units apart, however often the 16-bit stamp wrapped in between -/
+theorem retire_expire_sound (hstamp c : Nat) (hle : hstamp ≤ c) (he : expired hstamp c = true) : hstamp + 2 ≤ c := by
+  have := expired_sound hstamp c hle he
+  have hA : Gen.CVec.expireAfter = 1 := rfl
+  omega
+
+/-- As long as no push has installed a stamp older than the one it replaced (`stale = false`) a table
+superseded at time `g` is freed by retire / gc only on observing a clock value `v` at least two stamp
+units later.  Holds for the code before and after fix f6ba807. -/
+theorem retire_never_early_partial {c : Cfg} {s : State} (h : R c s) (hns : s.stale = false) (x g v : Nat)
+    (hf : s.freedT x = some (some v)) (hg : s.supAt x = some g) : unitOf g + 2 ≤ unitOf v ∧ v ≤ s.now := by
+  obtain ⟨g', hg', h2, h3⟩ := (Inv.of_reachable h).r.freedOk hns x v hf
+  rw [hg] at hg'; cases hg'
+  exact ⟨h2, h3⟩
+
+/-- With the stamp re-read for every attempt of retire's retry loop no push is ever stale … -/
+theorem retire_never_stale {c : Cfg} {s : State} (hc : c.reread = true) (h : R c s) : s.stale = false :=
+  (Inv.of_reachable h).r.rereadOk hc
+
+/-- … so, for every interleaving of concurrent ensure / reserve / gc calls and every monotone clock
+history (16-bit wrap included): a table superseded at time `g` is freed before the destructor only by
+an operation that observed a clock value `v` with `v / 64 s ≥ g / 64 s + 2`, i.e. more than 64 s later. -/
+theorem retire_never_early {c : Cfg} {s : State} (hc : c.reread = true) (h : R c s) (x g v : Nat)
+    (hf : s.freedT x = some (some v)) (hg : s.supAt x = some g) :
+    unitOf g + 2 ≤ unitOf v ∧ g + unitNs < v ∧ v ≤ s.now := by
+  obtain ⟨h1, h2⟩ := retire_never_early_partial h (retire_never_stale hc h) x g v hf hg
+  exact ⟨h1, unit_gap g v h1, h2⟩
+
+/-- the configuration the current source has (`gen_retireRereads`) -/
+theorem retire_never_early_code (bits : Nat) {s : State} (h : R { bits := bits } s) (x g v : Nat)
+    (hf : s.freedT x = some (some v)) (hg : s.supAt x = some g) :
+    unitOf g + 2 ≤ unitOf v ∧ g + unitNs < v ∧ v ≤ s.now :=
+  retire_never_early (c := { bits := bits }) gen_retireRereads h x g v hf hg
+
+/-- sequential histories: calls never overlap (a call starts only when every thread is idle) -/
+inductive SeqStep (c : Cfg) : State → State → Prop
+  | act (s s' : State) : Step c s s' → (∀ t i, s' ≠ callEnsure c s t i) → SeqStep c s s'
+  | call (s s' : State) : (∀ u, s.pc u = .idle) → Step c s s' → SeqStep c s s'
+
+theorem SeqStep.toStep {c : Cfg} {s s' : State} (h : SeqStep c s s') : Step c s s' := by
+  cases h with
+  | act _ _ hs _ => exact hs
+  | call _ _ _ hs => exact hs
+
+/-- every sequential retire / gc history and every monotone clock history (including 16-bit wrap of
+the stamp and any starting time): a table is freed only two stamp units after its retirement.  For
+sequential histories this holds with and without the re-read (a failed CAS can only be spurious). -/
+theorem retire_never_early_seq {c : Cfg} {s : State} (hc : c.reread = true)
+    (h : Reachable Init (SeqStep c) s) (x g v : Nat)
+    (hf : s.freedT x = some (some v)) (hg : s.supAt x = some g) : unitOf g + 2 ≤ unitOf v ∧ g + unitNs < v := by
+  have hr : R c s := by
+    induction h with
+    | base hi => exact .base hi
+    | tail _ hst ih => exact .tail ih hst.toStep
+  obtain ⟨h1, h2, _⟩ := retire_never_early hc hr x g v hf hg
+  exact ⟨h1, h2⟩
+
+/-- A snapshot stays usable for 64 s after the growth that superseded it, gc() or not: while the
+vector lives, the table of a snapshot is either not freed at all — in particular when it is still
+current, or when fewer than 64 s have passed since the CAS that superseded it — or it was freed by an
+operation that observed the clock more than 64 s after that CAS. -/
+theorem snapshot_usable_64s {c : Cfg} {s : State} (hc : c.reread = true) (h : R c s) (t T : Nat)
+    (hs : s.snap t = some T) (hlive : s.destroyed = false) :
+    s.freedT T = none ∨ ∃ g v, s.supAt T = some g ∧ s.freedT T = some (some v) ∧ g + unitNs < v ∧ v ≤ s.now := by
+  have inv := Inv.of_reachable h
+  have hpub := inv.sn.snapPub t T hs
+  cases hf : s.freedT T with
+  | none => exact Or.inl rfl
+  | some r =>
+    right
+    cases r with
+    | none =>
+      rcases inv.f.f1 T hf with hd | hp
+      · rw [hlive] at hd; cases hd
+      · rw [hpub] at hp; cases hp
+    | some v =>
+      obtain ⟨g, hg, h2, h3⟩ := inv.r.freedOk (inv.r.rereadOk hc) T v hf
+      exact ⟨g, v, hg, rfl, unit_gap g v h2, h3⟩
+
+/-- consequence in the form the property states it: less than 64 s after being superseded (or while
+still current) the table of a live vector's snapshot has not been freed -/
+theorem snapshot_not_freed_within_64s {c : Cfg} {s : State} (hc : c.reread = true) (h : R c s) (t T : Nat)
+    (hs : s.snap t = some T) (hlive : s.destroyed = false)
+    (hrecent : s.supAt T = none ∨ ∃ g, s.supAt T = some g ∧ s.now ≤ g + unitNs) : s.freedT T = none := by
+  rcases snapshot_usable_64s hc h t T hs hlive with h0 | ⟨g, v, hg, _, h1, h2⟩
+  · exact h0
+  · rcases hrecent with hn | ⟨g', hg', hle⟩
+    · rw [hn] at hg; cases hg
+    · rw [hg] at hg'; cases hg'; omega
+
+/-! ### the defect fixed by f6ba807, kept as a theorem about the model without the re-read -/
+
+def staleCfg : Cfg := { bits := 0, reread := false }
+
+/-- Without the re-read the full statement is false: the schedule of
+corpus/C04/stale_timestamp_witness.txt reaches a state where table 3, superseded at 126.0 s, has been
+freed by a gc() that observed 128.5 s. -/
+theorem retire_stale_timestamp_counterexample :
+    ∃ s, R staleCfg s ∧ ∃ x g v, s.freedT x = some (some v) ∧ s.supAt x = some g ∧ v < g + unitNs := by
+  have hrun : (run staleCfg (State.init 1000000000) staleSchedule).map
+      (fun s => decide (s.freedT 3 = some (some 128500004000)) && decide (s.supAt 3 = some 126000002000)) = some true := by
+    decide +kernel
+  cases hs : run staleCfg (State.init 1000000000) staleSchedule with
+  | none => rw [hs] at hrun; cases hrun
+  | some s =>
+    rw [hs] at hrun
+    simp only [Option.map_some, Option.some.injEq, Bool.and_eq_true, decide_eq_true_eq] at hrun
+    exact ⟨s, run_reach_init hs, 3, 126000002000, 128500004000, hrun.1, hrun.2, by decide⟩
+
+/-! ### non-vacuity: the hypotheses above are satisfiable by non-trivial reachable states -/
+
+def okCfg : Cfg := { bits := 1, reread := true }
+/-- block size 2: thread 0 ensures index 0, thread 1 takes a snapshot (table 1), thread 0 ensures index
+3 (table 3 supersedes table 1 at 1.000002 s), thread 1 ensures index 3 through the fast path, 200 s
+pass, thread 0 calls gc(), which observes 201 s and frees tables 1 and the empty one -/
+def okSchedule : List Ev := [
+  .ensure 0 0, .act 0, .act 0, .act 0, .act 0 1000001000, .act 0 1000002000, .act 0,
+  .snap 1, .act 1,
+  .ensure 0 3, .act 0, .act 0, .act 0, .act 0 1000003000, .act 0 1000004000, .act 0,
+  .ensure 1 3, .act 1,
+  .tick 200000000000,
+  .gc 0, .act 0, .act 0 201000005000, .act 0 ]
+
+example : ∃ s, R okCfg s ∧ s.snap 1 = some 1 ∧ s.destroyed = false ∧ s.supAt 1 = some 1000002000 ∧
+    s.freedT 1 = some (some 201000005000) ∧ s.result 1 = .elem 3 4 1 ∧ s.tbl s.cur = [2, 4] ∧ s.ctorN 4 = 1 := by
+  have hrun : (run okCfg (State.init 1000000000) okSchedule).map
+      (fun s => decide (s.snap 1 = some 1 ∧ s.destroyed = false ∧ s.supAt 1 = some 1000002000 ∧
+        s.freedT 1 = some (some 201000005000) ∧ s.result 1 = .elem 3 4 1 ∧ s.tbl s.cur = [2, 4] ∧ s.ctorN 4 = 1)) = some true := by
+    decide +kernel
+  cases hs : run okCfg (State.init 1000000000) okSchedule with
+  | none => rw [hs] at hrun; cases hrun
+  | some s =>
+    rw [hs] at hrun
+    simp only [Option.map_some, Option.some.injEq, decide_eq_true_eq] at hrun
+    exact ⟨s, run_reach_init hs, hrun⟩
+
+example : expired 65535 1 = true ∧ expired 65535 0 = false ∧ expired 7 65536 = false := by decide
 
 end Babylon.Properties.C04
